@@ -283,7 +283,9 @@ def decode(case):
                 if op[1] not in IMPORTS or norm_limit(op[2]) in (None, 'start'):
                     raise CaseInvalid('bogus')
                 ops.append([k, op[1], norm_limit(op[2])])
-            elif k in ('metadata', 'remove_cycle', 'add_broken', 'load_broken', 'remove_broken'):
+            elif k == 'add_broken':
+                ops.append([k, 1] if len(op) > 1 and op[1] == 1 else [k])
+            elif k in ('metadata', 'remove_cycle', 'load_broken', 'remove_broken'):
                 ops.append([k])
             elif k == 'extend':
                 ops.append([k, str(op[1])])
@@ -517,7 +519,7 @@ def judge(ops, final, res, ref, H, case):
                 raise CaseInvalid('load_broken without the file')
             if ev['status'] == 'ok':
                 H.violation('load:failing-item-not-reported', case,
-                            'loading a theory whose third item redeclares a constant returned normally')
+                            'loading a theory whose third item cannot be loaded (redeclared constant / unknown kind) returned normally')
             else:
                 H.note('broken-reported-as:%s' % ev.get('exc'))
         sim.apply(op)
@@ -715,7 +717,13 @@ def history_strategy(shape, variant=None):
         # formatted traceback): minutes per history.  Deletions stay near the target.
         def free_for(x):       # theories that x could additionally import: no cycle, and something to contribute
             return [t for t in THEORIES if x not in closure(t) and t not in closure(x) and CONTENT[t]]
-        if kind == 'delete':
+        # theories whose loading imports a module (a separate path through load_theory_cache): a change BELOW one of
+        # them must reach everything above it
+        special = [t for t in ('logic', 'expr', 'real', 'hoare') if t in cl and len(closure(t)) > 1]
+        if special and kind in ('delete', 'insert', 'restore') and draw(st.integers(0, 2 if kind != 'delete' else 1)) == 0:
+            T = draw(st.sampled_from(special))
+            pool = [x for x in closure(T)[-6:] if x != T]
+        elif kind == 'delete':
             # preferably a file the target imports (what the target-side theories cached about it goes stale)
             pool = [x for x in near if x != target] or near
         elif kind == 'add_import':
@@ -787,9 +795,10 @@ def history_strategy(shape, variant=None):
             mid.append(['remove_cycle'])
             ops = lead + mid + tail
         elif shape == 'broken':
-            mid = [['add_broken'], ['load_broken']]
-            if draw(st.booleans()):
-                mid.append(['load_broken'])
+            v = draw(st.integers(0, 1))
+            mid = [['add_broken', 1] if v else ['add_broken'], ['load_broken']]
+            if v or draw(st.booleans()):
+                mid.append(['load_broken'])          # the failed load must not leave a loadable partial theory behind
             if draw(st.booleans()):
                 mid.append(['remove_broken'])
             ops = lead + mid + tail
